@@ -4,8 +4,16 @@ Static theorems: coq/theories/Props/C02.v  (thomas_solves, flux form, precalc = 
 Per run: translator obligations on the C / Python coefficient formulas (harness/props/c02_translate.py),
 kernel descriptors, and correspondence of all 15 kernels, 5 precalc kernels, tridiag and the drivers
 against the Coq model evaluated over exact rationals.
+
+Every case is executed at a recorded position of a recorded sequence of calls inside one interpreter (the order of the
+cases of a process is part of the case description).  Besides the random streams there are designed CALL HISTORIES
+(gen_history_cases, gen_driver_histories): per kernel / driver a sequence that keeps the array sizes and replaces one
+group of arguments at a time (grids of the same size in the same buffers, parameters, dt, phi, delj, shape, the base call
+again), each call compared with the model of that call alone - state kept between calls shows up as a disagreement whose
+replay is the sequence (--replay re-runs it).  Driver calls are repeated with non-C-contiguous phi / grid objects.
+A failed translator obligation adds thorough-size sequences of the functions it is about (broken_functions).
 """
-import json, math, os
+import json, math, os, re
 from fractions import Fraction
 from harness import lib, numgen
 from harness.lib import q, ql, qll, natl, b, zzl
@@ -223,84 +231,606 @@ def coq_dcase(c, out):
 def finite(xs):
     return all(isinstance(x, float) and math.isfinite(x) for x in xs)
 
-def run_group(ctx, tag, cases, coqfn, checkfn, tol, shard, describe):
-    if not cases:
-        return {}
-    for i, c in enumerate(cases):
-        c['id'] = i
-    res = lib.run_impl('c02_impl.py', cases, timeout=1800)
-    byid = {r['id']: r for r in res}
-    exprs = []
-    for c in cases:
-        r = byid[c['id']]
-        if 'error' in r or not finite(r.get('res', [float('nan')])):
-            ctx.obligation('%s case %d runs' % (tag, c['id']), False, 'correspondence', r.get('error', 'non-finite output'))
-            ctx.violation('%s: implementation failed or returned non-finite values: %s' % (describe(c), r.get('error', 'non-finite')),
-                          data={'case': c, 'impl': r})
-            continue
-        c['_out'] = r['res']
-        exprs.append((c['id'], coqfn(c, r['res'])))
-    results = ctx.coq_cases(tag, HEADER, exprs, '(%s %s)' % (checkfn, q(tol)), 'rel %.0e of max|phi|' % float(tol), shard=shard, timeout=1800, kind=tag)
-    if checkfn == 'kcheck':
-        pivot_hypothesis(ctx, tag, cases, exprs, shard)
-    return results
+# ------------------------------------------------------------------------------------------------------------------
+# Call histories.  Every generated case is executed inside a process together with other cases, in a fixed order that
+# is part of the case description.  The model is a pure function of the arguments of one call, so a kernel or driver
+# that keeps ANY state between calls (static work arrays re-made only when a size changes, coefficients cached by size /
+# by pointer / by parameter value, a result remembered for "the same" input) disagrees with the model on a later call
+# of a suitable sequence.  The sequences below change one GROUP of arguments at a time between consecutive calls of the
+# same function (quick) or one single argument at a time (thorough and the targeted search), always keeping the array
+# sizes: a cache keyed by any proper subset of the arguments has, somewhere in the sequence, two consecutive calls that
+# agree on its key and differ elsewhere.
 
-def pivot_hypothesis(ctx, tag, cases, exprs, shard):
+AX = 'xyzab'
+DRIVER_NAMES = ['one_pop', 'two_pops', 'three_pops', 'four_pops', 'five_pops']
+
+def fn_of(c):
+    """the function of the real code a case calls (identity used when a failing sequence is shortened)"""
+    k = c['kind']
+    if k in ('kernel', 'wrap'):
+        return 'implicit_%dD%s/%s' % (len(c['shape']), AX[c['k']], 'ctypes' if k == 'kernel' else 'wrap')
+    if k == 'precalc':
+        return 'implicit_precalc_%dD%s/%s' % (len(c['shape']), AX[c['k']], c.get('via') or 'ctypes')
+    if k == 'tridiag':
+        return 'tridiag/%s' % (c.get('via') or 'ctypes')
+    return DRIVER_NAMES[len(c['shape']) - 1]
+
+def tag_of(c):
+    k = c['kind']
+    if k in ('kernel', 'wrap'):
+        return 'kerneldelj' if c['delj'] else 'kernel'
+    if k == 'driver':
+        return 'driverdelj' if c['delj'] else 'driver'
+    return k
+
+def describe(c):
+    k = c['kind']
+    if k in ('kernel', 'wrap'):
+        s = 'implicit_%dD%s (%s)' % (len(c['shape']), AX[c['k']], k)
+    elif k == 'precalc':
+        s = 'implicit_precalc_%dD%s (%s)' % (len(c['shape']), AX[c['k']], c['via'])
+    elif k == 'tridiag':
+        s = 'tridiag n=%d (%s)' % (len(c['a']), c['via'])
+    else:
+        s = '%d-pop driver as_func=%s%s' % (len(c['shape']), c['as_func'], ' delj=on' if c['delj'] else '')
+        if c.get('layout'):
+            s += ' layout phi=%s grid=%s' % (c['layout'].get('phi'), c['layout'].get('grid'))
+    if c.get('hist'):
+        s += ' [history %s, call %d: %s]' % (c['hist'], c['hstep'], c['step'])
+    return s
+
+COQ = {'kernel': (coq_kcase, 'kcheck', TOL), 'kerneldelj': (coq_kcase, 'kcheck', TOL_DELJ), 'precalc': (coq_pcase, 'pcheck', TOL),
+       'tridiag': (coq_tcase, 'tcheck', TOL), 'driver': (coq_dcase, 'dcheck', TOL), 'driverdelj': (coq_dcase, 'dcheck', TOL_DELJ)}
+
+def strip(c):
+    return {k: v for k, v in c.items() if not k.startswith('_')}
+
+def differing_grid(rng, g, exact_ends):
+    """a grid of the same length whose interior points all differ visibly from those of g"""
+    n = len(g)
+    for attempt in range(200):
+        h = numgen.grid(rng, n, kind=None if attempt < 100 else 'random', exact_ends=exact_ends)
+        if all(abs(a - b_) >= 1 / 128 for a, b_ in zip(g[1:-1], h[1:-1])):
+            return h
+    raise RuntimeError('no differing grid of length %d found' % n)
+
+def kparams(rng, d, other=None):
+    """kernel parameters with every entry non-zero (and different from those of `other`)"""
+    for attempt in range(100):
+        p = {'nu': numgen.logdy(rng, 1e-2, 1e2), 'gamma': rng.choice([-1, 1]) * lib.dyadic(rng, 0.5, 40, 4), 'h': lib.dyadic(rng, 0, 1, 5),
+             'beta': numgen.logdy(rng, 0.2, 5) if d == 1 else 1.0, 'ms': [lib.dyadic(rng, 0.25, 20, 4) for _ in range(d - 1)]}
+        if other is None or (p['nu'] != other['nu'] and p['gamma'] != other['gamma'] and p['h'] != other['h'] and
+                             (d > 1 or p['beta'] != other['beta']) and all(a != b_ for a, b_ in zip(p['ms'], other['ms']))):
+            return p
+    raise RuntimeError('kparams')
+
+def delj_kparams(rng, d, grids_k):
+    """selection-only parameters keeping |w/V| in the well-conditioned band of the Chang-Cooper formula on every given grid"""
+    for attempt in range(40):
+        p = {'nu': numgen.logdy(rng, 0.25, 2, 3), 'gamma': rng.choice([-1, 1]) * lib.dyadic(rng, 2, 8, 2), 'h': rng.choice([0.5, 0.25, 0.75]),
+             'beta': numgen.logdy(rng, 0.5, 2, 3) if d == 1 else 1.0, 'ms': [0.0] * (d - 1)}
+        if all(wv_ok(g, p, None, d) for g in grids_k):
+            return p
+    return None
+
+def _kcase(st, via, hist, label, reuse):
+    pop = {'nu': st['nu'], 'gamma': st['gamma'], 'h': st['h'], 'beta': st['beta'], 'ms': list(st['ms']), 'frozen': False, 'nomut': False}
+    return {'kind': via, 'shape': list(st['shape']), 'k': st['k'], 'grids': [list(g) for g in st['grids']], 'nu': st['nu'], 'ms': list(st['ms']),
+            'gamma': st['gamma'], 'h': st['h'], 'beta': st['beta'], 'dt': st['dt'], 'delj': st['delj'], 'phi': list(st['phi']), 'pop': pop,
+            'reuse': reuse, 'hist': hist, 'step': label}
+
+def kernel_history(rng, d, k, via, fine, big, rep=0):
+    """one sequence of calls of implicit_{d}D{k} (via ctypes: unequal dimensions; via the Cython wrapper: cubic)."""
+    if via == 'kernel':
+        lo, hi = ({1: (6, 10), 2: (4, 6), 3: (3, 5), 4: (3, 4), 5: (3, 3)} if not big else {1: (10, 30), 2: (6, 12), 3: (5, 8), 4: (4, 6), 5: (3, 4)})[d]
+        shape = [rng.randint(lo, hi) for _ in range(d)]
+        if d >= 2 and len(set(shape)) == 1:
+            shape[k] += 1
+        shape[k] = max(shape[k], 4)
+        shape2 = [n + 1 if n < hi + 1 else n - 1 for n in shape]
+    else:
+        n = ({1: rng.randint(6, 10), 2: rng.randint(4, 6), 3: 4, 4: 3, 5: 3} if not big else {1: rng.randint(10, 30), 2: rng.randint(6, 10), 3: rng.randint(5, 6), 4: 4, 5: 3})[d]
+        shape = [n] * d
+        shape2 = [n + 1] * d
+    size = lambda s: int(math.prod(s))
+    ex = rng.random() < 0.75
+    A = [numgen.grid(rng, n, exact_ends=ex) for n in shape]
+    B = [differing_grid(rng, g, ex) for g in A]
+    P1 = kparams(rng, d); P2 = kparams(rng, d, P1)
+    dt1 = numgen.logdy(rng, 1e-5, 1e-1); dt2 = dt1 * rng.choice([0.25, 0.5, 2.0, 4.0])
+    phi1 = numgen.density(rng, size(shape), 'random'); phi2 = numgen.density(rng, size(shape), 'random')
+    hist = 'implicit_%dD%s/%s#%d' % (d, AX[k], 'ctypes' if via == 'kernel' else 'wrap', rep)
+    st = dict(shape=shape, k=k, grids=list(A), dt=dt1, delj=False, phi=phi1, **P1)
+    base = dict(st)
+    seq = []
+    def emit(label, reuse=True, **ch):
+        st.update(ch)
+        seq.append(_kcase(st, via, hist, label, reuse))
+    emit('base call')
+    if not fine:
+        emit('every grid replaced by a different grid of the same size (same buffers, same parameters, dt, phi)', grids=list(B))
+        emit('parameters, dt and phi changed (same grids)', dt=dt2, phi=phi2, **P2)
+        if d >= 2 and via == 'kernel':
+            emit("grid of the swept axis back to the first one (other axes' grids kept)", grids=[A[j] if j == k else B[j] for j in range(d)])
+            emit("other axes' grids back to the first ones: first grids again (fresh buffers)", reuse=False, grids=list(A))
+        else:
+            emit('first grids again (fresh buffers)', reuse=False, grids=list(A))
+    else:
+        emit('phi only changed', phi=phi2)
+        emit('dt only changed', dt=dt2)
+        emit('nu only changed', nu=P2['nu'])
+        for j in range(d - 1):
+            emit('migration rate %d only changed' % j, ms=[P2['ms'][i] if i == j else st['ms'][i] for i in range(d - 1)])
+        emit('gamma only changed', gamma=P2['gamma'])
+        emit('h only changed', h=P2['h'])
+        if d == 1:
+            emit('beta only changed', beta=P2['beta'])
+        for j in range(d):
+            emit('grid of axis %d only replaced by a different grid of the same size (same buffer)' % j, grids=[B[i] if i == j else st['grids'][i] for i in range(d)])
+        for j in range(d):
+            emit('grid of axis %d only back to the first one (fresh buffers)' % j, reuse=False, grids=[A[i] if i == j else st['grids'][i] for i in range(d)])
+    if via == 'kernel' or fine:
+        P3 = delj_kparams(rng, d, [A[k], B[k]]) or delj_kparams(rng, d, [A[k]])
+        if P3 is not None:
+            emit('delj trick switched on, selection-only parameters', delj=True, **P3)
+            if wv_ok(B[k], P3, None, d):
+                emit('grid of the swept axis replaced (same size, same buffers), delj on', grids=[B[j] if j == k else st['grids'][j] for j in range(d)])
+            if fine:
+                emit('delj trick switched off only', delj=False)
+        exc = rng.random() < 0.75
+        emit('different shape, everything new', shape=shape2, grids=[numgen.grid(rng, n, exact_ends=exc) for n in shape2], delj=False,
+             phi=numgen.density(rng, size(shape2), 'random'), dt=numgen.logdy(rng, 1e-5, 1e-1), **kparams(rng, d))
+        emit('the base call again (fresh buffers)', reuse=False, **base)
+    for i, c in enumerate(seq):
+        c['hstep'] = i
+    return seq
+
+def precalc_history(rng, d, k, via, big, rep=0):
+    if via == 'ctypes':
+        lo, hi = (3, 5) if not big else (4, 9)
+        shape = [rng.randint(lo, hi) for _ in range(d)]
+        if len(set(shape)) == 1:
+            shape[k] += 1
+        shape2 = [n + 1 for n in shape]
+    else:
+        n = rng.randint(3, 5) if not big else rng.randint(4, 8)
+        shape = [n] * d; shape2 = [n + 1] * d
+    size = lambda s: int(math.prod(s))
+    def coefs(sz):
+        return {'a': [lib.dyadic(rng, -4, -0.25, 6) for _ in range(sz)], 'c': [lib.dyadic(rng, -4, -0.25, 6) for _ in range(sz)],
+                'b': [lib.dyadic(rng, 8.5, 20, 6) for _ in range(sz)]}
+    hist = 'implicit_precalc_%dD%s/%s#%d' % (d, AX[k], via, rep)
+    st = dict(shape=shape, dt=numgen.logdy(rng, 1e-5, 1e-1), phi=numgen.density(rng, size(shape), 'random'), **coefs(size(shape)))
+    base = dict(st)
+    seq = []
+    def emit(label, reuse=True, **ch):
+        st.update(ch)
+        seq.append({'kind': 'precalc', 'via': via, 'shape': list(st['shape']), 'k': k, 'a': list(st['a']), 'b': list(st['b']), 'c': list(st['c']), 'dt': st['dt'],
+                    'phi': list(st['phi']), 'reuse': reuse, 'hist': hist, 'step': label})
+    emit('base call')
+    emit('coefficient arrays replaced (same shape, same buffers, same dt and phi)', **coefs(size(shape)))
+    emit('dt and phi changed (same coefficient arrays)', dt=st['dt'] * rng.choice([0.25, 0.5, 2.0, 4.0]), phi=numgen.density(rng, size(shape), 'random'))
+    if via == 'ctypes' or big:
+        emit('different shape, everything new', shape=shape2, dt=numgen.logdy(rng, 1e-5, 1e-1), phi=numgen.density(rng, size(shape2), 'random'), **coefs(size(shape2)))
+    emit('the base call again (fresh buffers)', reuse=False, **base)
+    for i, c in enumerate(seq):
+        c['hstep'] = i
+    return seq
+
+def tridiag_history(rng, via, big, rep=0):
+    n = rng.randint(4, 12) if not big else rng.randint(8, 60)
+    def rows(m):
+        return {'a': [lib.dyadic(rng, -4, 4, 6) for _ in range(m)], 'c': [lib.dyadic(rng, -4, 4, 6) for _ in range(m)],
+                'b': [rng.choice([-1, 1]) * lib.dyadic(rng, 8.5, 20, 6) for _ in range(m)], 'r': [lib.dyadic(rng, -8, 8, 6) for _ in range(m)]}
+    hist = 'tridiag/%s#%d' % (via, rep)
+    st = rows(n); base = dict(st)
+    seq = []
+    def emit(label, reuse=True, **ch):
+        st.update(ch)
+        seq.append({'kind': 'tridiag', 'via': via, 'a': list(st['a']), 'b': list(st['b']), 'c': list(st['c']), 'r': list(st['r']), 'reuse': reuse, 'hist': hist, 'step': label})
+    emit('base call')
+    emit('matrix replaced, same right-hand side, same size (same buffers)', **{x: v for x, v in rows(n).items() if x != 'r'})
+    emit('right-hand side only replaced', r=rows(n)['r'])
+    emit('different size', **rows(n + rng.randint(1, 3)))
+    emit('the base call again (fresh buffers)', reuse=False, **base)
+    for i, c in enumerate(seq):
+        c['hstep'] = i
+    return seq
+
+def gen_history_cases(ctx, rng, only=None, fine=None, big_from=None, reps=None):
+    """the call sequences of every C kernel (15 on-the-fly, 5 precalc: through ctypes and through the Cython wrappers) and of
+    tridiag, in the order in which they are executed in one process.  only: set of function names to restrict to."""
+    fine = (not ctx.quick) if fine is None else fine
+    big_from = ctx.pick(99, 1) if big_from is None else big_from      # repetitions from this one on use the larger shapes
+    reps = ctx.pick(1, 2) if reps is None else reps
+    out = []
+    for rep in range(reps):
+        big = rep >= big_from
+        for d in range(1, 6):
+            for k in range(d):
+                if only is not None and 'implicit_%dD%s' % (d, AX[k]) not in only:
+                    continue
+                for via in ('kernel', 'wrap'):
+                    out += kernel_history(rng, d, k, via, fine, big, rep)
+        for d, k in [(2, 0), (2, 1), (3, 0), (3, 1), (3, 2)]:
+            if only is not None and 'implicit_precalc_%dD%s' % (d, AX[k]) not in only:
+                continue
+            for via in ('ctypes', 'wrap'):
+                out += precalc_history(rng, d, k, via, big, rep)
+        if only is None or 'tridiag' in only:
+            for via in ('ctypes', 'wrap'):
+                out += tridiag_history(rng, via, big, rep)
+    return out
+
+def driver_setting(rng, d, delj, mode, grids, nsteps_max):
+    """parameters, T, theta0, phi of one driver call (everything except the grid); with delj the parameters keep |w/V| in the
+    well-conditioned band on every grid of `grids`"""
+    n = len(grids[0])
+    for attempt in range(60):
+        if delj:
+            pops = [numgen.pop(rng, d, mig=False, beta=(d == 1)) for _ in range(d)]
+            for p in pops:
+                p['nu'] = numgen.logdy(rng, 0.25, 2, 3)
+                p['gamma'] = rng.choice([-1, 1]) * lib.dyadic(rng, 2, 8, 2)
+                p['h'] = rng.choice([0.5, 0.25, 0.75])
+            if not all(wv_ok(g, p, None, d) for p in pops for g in grids):
+                continue
+            tf = 1 / 128
+        else:
+            pops = [numgen.pop(rng, d, beta=(d == 1)) for _ in range(d)]
+            for p in pops:
+                p['nu'] = numgen.logdy(rng, 0.05, 20)
+                p['gamma'] = lib.dyadic(rng, -8, 8, 3) or 1.5
+                p['ms'] = [lib.dyadic(rng, 0.125, 4, 3) for _ in range(d - 1)]
+            tf = rng.choice([1 / 64, 1 / 128, 1 / 256, 1 / 1024])
+        break
+    else:
+        return None
+    mv = max(max(0.25 / p['nu'], sum(p['ms']), abs(p['gamma']) * 0.25) for p in pops)
+    dt = tf / mv
+    nsteps = rng.randint(1, nsteps_max)
+    T = numgen.logdy(rng, dt * (nsteps - 0.6), dt * (nsteps - 0.1))
+    s = {'pops': pops, 'theta0': lib.dyadic(rng, 0.25, 4, 4), 'tf': tf, 'delj': delj, 'T': T, 'phi': numgen.density(rng, n ** d, 'random'),
+         'as_func': mode, 'theta_slope': 0.0}
+    if mode == 'lin':
+        for p in pops:
+            p['nu_slope'] = lib.dyadic(rng, 0, 2, 3)
+        s['theta_slope'] = lib.dyadic(rng, 0, 1, 3)
+    return s
+
+def gen_driver_histories(ctx, rng, dims=(1, 2, 3, 4, 5), big_from=None, reps=None):
+    """per driver one_pop..five_pops, per parameter passing (constants / functions of time) and per delj setting:
+    (grid A, setting 1) -> (grid B of the same size, setting 1) -> (grid B, setting 2) -> (grid A, setting 2), all in one process"""
+    big_from = ctx.pick(99, 1) if big_from is None else big_from
+    reps = ctx.pick(1, 2) if reps is None else reps
+    out = []
+    for rep in range(reps):
+        for d in dims:
+            n = ({1: rng.randint(6, 10), 2: 5, 3: 4, 4: 3, 5: 3} if rep < big_from else {1: rng.randint(10, 24), 2: rng.randint(6, 9), 3: rng.randint(5, 6), 4: 4, 5: 3})[d]
+            for delj in (False, True):
+                for path in ('const', 'func'):
+                    hist = '%s/%s%s#%d' % (DRIVER_NAMES[d - 1], 'constants' if path == 'const' else 'functions', '/delj' if delj else '', rep)
+                    m1 = None if path == 'const' else 'const'
+                    m2 = None if path == 'const' else ('const' if delj else 'lin')
+                    for attempt in range(20):
+                        A = numgen.grid(rng, n, kind=rng.choice(['uniform', 'exp', 'quad', 'random'] if not delj else ['uniform', 'quad', 'random']))
+                        B = differing_grid(rng, A, True)
+                        s1 = driver_setting(rng, d, delj, m1, [A, B], 1 if delj else 2)
+                        s2 = driver_setting(rng, d, delj, m2, [A, B], 1 if delj else 2)
+                        if s1 is not None and s2 is not None:
+                            break
+                    else:
+                        ctx.obligation('call history %s could be generated' % hist, False, 'harness', 'no well-conditioned delj parameters found for two grids of %d points' % n)
+                        continue
+                    steps = [(A, s1, 'base call'), (B, s1, 'grid only replaced by a different grid of the same size'),
+                             (B, s2, 'parameters, T, theta0, phi changed (same grid)'), (A, s2, 'first grid again')]
+                    for i, (g, s, label) in enumerate(steps):
+                        c = json.loads(json.dumps(s))
+                        c.update({'kind': 'driver', 'shape': [n] * d, 'grid': list(g), 'hist': hist, 'hstep': i, 'step': label})
+                        out.append(c)
+    return out
+
+def gen_layout_cases(ctx, bases):
+    """memory-layout variants of driver calls: same logical phi / grid, the array objects Fortran-ordered, transposed views,
+    negatively strided views, every-other-element views.  bases: evaluated driver cases (C-contiguous arguments)."""
+    out = []
+    for c in bases:
+        d = len(c['shape'])
+        if d == 1:
+            combos = [('neg', 'neg'), ('step', 'step')]
+        elif ctx.quick:
+            combos = [('F', None), ('T', 'neg'), ('neg', 'step'), ('step', None)]
+        else:
+            combos = [(a, g) for a in ('F', 'T', 'neg', 'step') for g in (None, 'neg', 'step')]
+        for lp, lg in combos:
+            v = json.loads(json.dumps(strip(c)))
+            v.pop('id', None)
+            v['layout'] = {'phi': lp, 'grid': lg}
+            v['layout_of'] = c['id']
+            v['hist'] = 'layouts'; v['hstep'] = len(out); v['step'] = 'layout variant of the base call of history %s' % c.get('hist')
+            out.append(v)
+    return out
+
+# ------------------------------------------------------------------------------------------------------------------
+# running the implementation: one fresh interpreter per process, cases in the given order
+
+def run_proc(cases, timeout=1800):
+    """Run the cases, in order, inside ONE fresh interpreter.  Returns {id: record}.  When the interpreter dies inside a call
+    (crash in compiled code) that call gets an error record and the remaining cases continue in a new interpreter; every case
+    records the position at which its process started (c['_pstart']): its history is cases[_pstart : own position]."""
+    import subprocess
+    from harness import overlay
+    script = os.path.join(lib.HARNESS, 'impl', 'c02_impl.py')
+    out = {}
+    start = 0
+    barren = 0
+    while start < len(cases):
+        chunk = cases[start:]
+        r = subprocess.run([lib.PY, script, '--stream'], input=json.dumps([strip(c) for c in chunk]), capture_output=True, text=True,
+                           timeout=timeout, env=overlay.env(), cwd=lib.BUILD)
+        n = 0
+        for line in r.stdout.splitlines():
+            if line.startswith('R '):
+                rec = json.loads(line[2:])
+                out[rec['id']] = rec
+                n += 1
+        for c in chunk[:n + 1]:
+            c['_pstart'] = start
+        if n >= len(chunk):
+            break
+        barren = barren + 1 if n == 0 else 0
+        if barren >= 2:
+            raise RuntimeError('impl driver c02_impl.py fails before its first case (rc=%d):\n%s' % (r.returncode, r.stderr[-3000:]))
+        c = chunk[n]
+        out[c['id']] = {'id': c['id'], 'error': 'the interpreter died inside this call (rc=%d) %s' % (r.returncode, r.stderr[-300:])}
+        start += n + 1
+    return out
+
+def same_out(a, bb, rel=1e-13):
+    if a is None or bb is None or len(a) != len(bb):
+        return False
+    if not finite(a) or not finite(bb):
+        return a == bb
+    scale = max([abs(x) for x in bb] + [1e-300])
+    return max(abs(x - y) for x, y in zip(a, bb)) <= rel * scale
+
+def shorten_history(c, proc_cases):
+    """c disagreed with the model (or failed) at its position in the process.  Re-run it alone in a fresh interpreter: when the
+    lone result is the same, the call itself is the failing input (empty history).  Otherwise the failure depends on the
+    preceding calls: return the shortest of [the previous call] / [the previous calls of the same function] / [everything
+    before] that reproduces the in-sequence result.  Returns (history, note)."""
+    pos = next(i for i, x in enumerate(proc_cases) if x is c)
+    prefix = proc_cases[c.get('_pstart', 0):pos]
+    got = c.get('_out')
+    def rerun(hist):
+        seq = [dict(strip(x), id=i) for i, x in enumerate(hist + [c])]
+        try:
+            return run_proc(seq, timeout=600).get(len(seq) - 1, {})
+        except Exception as e:
+            return {'error': 'rerun failed: %s' % e}
+    def same(rec):
+        if got is None:
+            return 'error' in rec
+        return same_out(rec.get('res'), got)
+    if not prefix:
+        return [], 'first call of its process'
+    alone = rerun([])
+    if same(alone):
+        return [], 'the same call alone in a fresh interpreter gives the same result'
+    dev = None
+    ar = alone.get('res')
+    if ar is not None and got is not None and finite(ar) and finite(got) and len(ar) == len(got):
+        dev = max(abs(x - y) for x, y in zip(ar, got)) / max([abs(x) for x in ar] + [1e-300])
+    note = 'HISTORY DEPENDENT: the same call alone in a fresh interpreter gives a different result (rel. difference %s): state is kept between calls' % (
+        '%.3g' % dev if dev is not None else 'n/a')
+    samefn = [x for x in prefix if fn_of(x) == fn_of(c)]
+    seen = []
+    for h in (prefix[-1:], samefn[-1:], samefn[-3:], samefn):
+        if not h or h in seen:
+            continue
+        seen.append(h)
+        if same(rerun(h)):
+            break
+    else:
+        return [strip(x) for x in prefix], note + '; history = all %d preceding calls of the process' % len(prefix)
+    # h reproduces the result: reduce it (a single earlier call, else greedy removal), at most 30 more runs
+    budget = [30]
+    def tryh(hh):
+        if budget[0] <= 0:
+            return False
+        budget[0] -= 1
+        return same(rerun(hh))
+    if len(h) > 1:
+        for x in reversed(h[-12:]):
+            if tryh([x]):
+                h = [x]
+                break
+        else:
+            i = 0
+            while i < len(h) and len(h) > 1 and budget[0] > 0:
+                hh = h[:i] + h[i + 1:]
+                if tryh(hh):
+                    h = hh
+                else:
+                    i += 1
+    return [strip(x) for x in h], note + '; reproduced by the %d preceding call(s) recorded as history' % len(h)
+
+# ------------------------------------------------------------------------------------------------------------------
+# evaluating the model: all groups in one balanced batch of Coq files
+
+def cost_of(c, piv=False):
+    """estimated evaluation cost of a case in Coq, unit = one kernel entry without delj (about 2 ms); calibrated on measured files"""
+    k = c['kind']
+    if k == 'tridiag':
+        return 30 + len(c['a'])
+    e = 1
+    for n in c['shape']:
+        e *= n
+    if k == 'precalc':
+        return 50 + e
+    if k in ('kernel', 'wrap'):
+        if piv:
+            return 50 + e * (12 if c['delj'] else 1.1)
+        return 50 + e * (4.2 if c['delj'] else 1)
+    d = len(c['shape'])
+    mv = max(max(0.25 / p['nu'], sum(p['ms']), abs(p['gamma']) * 0.25) for p in c['pops'])
+    nst = max(1, math.ceil(c['T'] / (c['tf'] / mv)))
+    return 50 + e * d * nst * 0.6 * (10 if c['delj'] else 1)
+
+def coq_batch(ctx, jobs, nfiles=44, timeout=1800):
+    """jobs: list of (tag, check_fn_text, tol_text, [(id, coq_expr_text, cost)], record_err).  Writes cost-balanced files
+    C02_<tag>_<k>.v (format of lib.Ctx.coq_cases), runs all of them in one pool, most expensive first.
+    Returns {tag: {id: (ok, log2err)}}; missing ids = evaluation failure."""
+    total = sum(x[2] for j in jobs for x in j[3]) or 1
+    target = max(total / nfiles, 1500.0)
+    files = []
+    for tag, check_fn, tol_text, items, record_err in jobs:
+        if not items:
+            continue
+        jt = sum(x[2] for x in items)
+        nb = max(1, min(len(items), int(math.ceil(jt / target))))
+        bins = [[0.0, []] for _ in range(nb)]
+        for it in sorted(items, key=lambda x: -x[2]):
+            bn = min(bins, key=lambda b_: b_[0])
+            bn[0] += it[2]; bn[1].append(it)
+        for kk, (cst, chunk) in enumerate(bins):
+            chunk.sort(key=lambda x: x[0])
+            body = [HEADER, '']
+            for cid, ex, _ in chunk:
+                body.append('Definition case_%d := %s.' % (cid, ex))
+            body.append('Definition results := map (fun p => (fst p, %s (snd p))) [%s].' % (check_fn, '; '.join('(%d%%Z, case_%d)' % (cid, cid) for cid, _, _ in chunk)))
+            body.append('Eval vm_compute in results.')
+            files.append((cst, '%s_%s_%d' % (ctx.prop, tag, kk), '\n'.join(body) + '\n', tag, tol_text, record_err))
+    files.sort(key=lambda f: -f[0])
+    res = lib.run_case_files([(n, t) for _, n, t, _, _, _ in files], timeout=timeout)
+    out = {j[0]: {} for j in jobs}
+    for cst, n, t, tag, tol_text, record_err in files:
+        rc, so, se, secs = res[n]
+        if rc != 0:
+            ctx.obligation('coqc %s' % n, False, 'correspondence', se[-600:])
+            continue
+        for cid, ok, e in lib.parse_results(so):
+            out[tag][cid] = (ok, e)
+            if record_err:
+                ctx.err(tag, e, tol_text)
+    for tag, _, _, items, _ in jobs:
+        if items:
+            ctx.checker_cmds.append('coqc -Q coq/theories Dadi build/cases/%s_%s_*.v  (%d cases, vm_compute)' % (ctx.prop, tag, len(items)))
+    return out
+
+def evaluate(ctx, procs, pivots=True):
+    """procs: list of (process name, [cases in execution order]).  Runs every process, compares every result with the model.
+    Returns {id: (ok, log2err) or None}."""
+    allc = [c for _, cs in procs for c in cs]
+    for i, c in enumerate(allc):
+        c['id'] = i
+    # --- the real code, one interpreter per process (4 at a time)
+    from concurrent.futures import ThreadPoolExecutor
+    with ThreadPoolExecutor(max_workers=4) as ex:
+        futs = [(name, cs, ex.submit(run_proc, cs)) for name, cs in procs if cs]
+        for name, cs, f in futs:
+            byid = f.result()
+            for pos, c in enumerate(cs):
+                c['_proc'] = name; c['_pos'] = pos
+                r = byid.get(c['id'], {'error': 'no result'})
+                if 'error' in r or not finite(r.get('res', [float('nan')])):
+                    c['_err'] = r.get('error', 'non-finite output')
+                    if 'res' in r:
+                        c['_out'] = r['res']
+                else:
+                    c['_out'] = r['res']
+    # --- layout variants: equal (to round-off) to the C-contiguous run of the same logical arguments, which is compared
+    #     with the model; a variant that differs is itself sent to the model
+    byid = {c['id']: c for c in allc}
+    for c in allc:
+        if 'layout_of' in c and '_err' not in c:
+            base = byid.get(c['layout_of'])
+            if base is not None and '_out' in base and '_err' not in base and same_out(c['_out'], base['_out'], 1e-12):
+                c['_as_base'] = True
+    jobs = {}
+    for c in allc:
+        if '_err' in c or c.get('_as_base'):
+            continue
+        tag = tag_of(c)
+        coqfn, checkfn, tol = COQ[tag]
+        jobs.setdefault(tag, (tag, '(%s %s)' % (checkfn, q(tol)), 'rel %.0e of max|phi|' % float(tol), [], True))[3].append((c['id'], coqfn(c, c['_out']), cost_of(c)))
+        if pivots and tag.startswith('kernel'):
+            jobs.setdefault(tag + 'piv', (tag + 'piv', 'kpiv', 'n/a', [], False))[3].append((c['id'], coqfn(c, c['_out']), cost_of(c, True)))
+    res = coq_batch(ctx, list(jobs.values()), nfiles=ctx.pick(44, 128))
+    results = {}
+    for c in allc:
+        if c.get('_as_base'):
+            results[c['id']] = res.get(tag_of(byid[c['layout_of']]), {}).get(c['layout_of'])
+        else:
+            results[c['id']] = res.get(tag_of(c), {}).get(c['id'])
+    return results, res
+
+def pivot_accounting(ctx, allc, res):
     """The solve/uniqueness theorems assume non-vanishing Thomas pivots; Proofs/Pivots.v proves them positive under the
     cell-Peclet condition.  Evaluate both on the model for every line of every generated kernel case: the hypothesis
     must hold on everything generated (otherwise the correspondence says nothing there), and the share of lines
     meeting the Peclet condition is reported (non-vacuity of the proved sufficient condition)."""
-    res = ctx.coq_cases(tag + 'piv', HEADER, exprs, 'kpiv', 'n/a', shard=shard * 2, timeout=1800, kind=tag + 'piv', record_err=False)
-    byid = {c['id']: c for c in cases}
-    nlines = npec = 0
-    for cid, (ok, cnt) in res.items():
-        c = byid[cid]
-        n = 1
-        for s_ in c['shape']:
-            n *= s_
-        nlines += n // c['shape'][c['k']]
-        npec += cnt // c['shape'][c['k']]
-        ctx.obligation('%s case %d: model pivots non-zero on every line, positive on every line meeting the cell-Peclet condition' % (tag, cid), ok, 'hypothesis',
-                       '' if ok else 'a Thomas pivot of the model vanishes or is non-positive under the Peclet condition: theorem C02_pivots_positive_under_peclet_condition contradicted or hypothesis `nonzero` unmet')
-        if not ok:
-            ctx.violation('%s: the implicit system of a generated line has a vanishing pivot (or a non-positive one under the cell-Peclet condition): the scheme is not uniquely solvable there' % tag,
-                          data={'case': {k: v for k, v in c.items() if not k.startswith('_')}}, no_input=True, broken='hypothesis nonzero (all_pivots (line_rows ...)) of C02_step_solves_scheme')
-    ctx.stats['lines_checked_for_pivots_' + tag] = nlines
-    ctx.stats['lines_meeting_cell_peclet_condition_' + tag] = npec
+    for tag in ('kernel', 'kerneldelj'):
+        nlines = npec = 0
+        for c in allc:
+            if tag_of(c) != tag or '_err' in c or '_out' not in c:
+                continue
+            rr = res.get(tag + 'piv', {}).get(c['id'])
+            if rr is None:
+                ctx.obligation('%s case %d: pivots of the model evaluated' % (tag, c['id']), False, 'hypothesis', 'no result from coqc')
+                continue
+            ok, cnt = rr
+            n = 1
+            for s_ in c['shape']:
+                n *= s_
+            nlines += n // c['shape'][c['k']]
+            npec += cnt // c['shape'][c['k']]
+            ctx.obligation('%s case %d: model pivots non-zero on every line, positive on every line meeting the cell-Peclet condition' % (tag, c['id']), ok, 'hypothesis',
+                           '' if ok else 'a Thomas pivot of the model vanishes or is non-positive under the Peclet condition: theorem C02_pivots_positive_under_peclet_condition contradicted or hypothesis `nonzero` unmet')
+            if not ok:
+                ctx.violation('%s: the implicit system of a generated line has a vanishing pivot (or a non-positive one under the cell-Peclet condition): the scheme is not uniquely solvable there' % tag,
+                              data={'case': strip(c)}, no_input=True, broken='hypothesis nonzero (all_pivots (line_rows ...)) of C02_step_solves_scheme')
+        ctx.stats['lines_checked_for_pivots_' + tag] = nlines
+        ctx.stats['lines_meeting_cell_peclet_condition_' + tag] = npec
 
-def run(ctx):
-    ctx.rule = ('kernel cases = (dimension d, swept axis k, unequal shape, per-axis random/uniform/exponential/quadratic dyadic grids with '
-                'and without exact 0/1 end points, nu, per-pair migration rates, gamma, h, beta(1-D), dt, delj switch, random non-negative density); '
-                'precalc cases = random diagonally dominant coefficient arrays; driver cases = one_pop..five_pops for 1-3 steps with constants, '
-                'constant functions and linear-in-time functions; distinct = distinct parameter tuples; non-trivial = not (gamma = 0 and all m = 0)')
-    ctx.assumptions += ['float64 kernels are compared with exact rational evaluation at 1e-9 (1e-7 with the delj trick) relative to max|phi|',
-                        'delj cases keep |w/V| in {0} u [1e-2, 500] on every interval (the float formula is ill-conditioned below, overflows above)',
-                        'Qexp is a rational approximation with relative error < 2^-100']
-    ctx.trusted += ['C semantics of the kernels are not formalised: tie = coefficient-formula translation (ring/field obligations) + kernel descriptors + execution against the model']
-    from harness.props import c02_translate
-    c02_translate.obligations(ctx)
-    groups = []
-    kc = gen_kernel_cases(ctx)
-    groups.append(('kernel', kc, coq_kcase, 'kcheck', None, lambda c: 'implicit_%dD%s (%s)' % (len(c['shape']), 'xyzab'[c['k']], c['kind'])))
-    pc = gen_precalc_cases(ctx)
-    groups.append(('precalc', pc, coq_pcase, 'pcheck', TOL, lambda c: 'implicit_precalc_%dD%s (%s)' % (len(c['shape']), 'xyzab'[c['k']], c['via'])))
-    tc = gen_tridiag_cases(ctx)
-    groups.append(('tridiag', tc, coq_tcase, 'tcheck', TOL, lambda c: 'tridiag n=%d (%s)' % (len(c['a']), c['via'])))
-    dc = gen_driver_cases(ctx)
-    groups.append(('driver', [c for c in dc if not c['delj']], coq_dcase, 'dcheck', TOL, lambda c: '%d-pop driver as_func=%s' % (len(c['shape']), c['as_func'])))
-    groups.append(('driverdelj', [c for c in dc if c['delj']], coq_dcase, 'dcheck', TOL_DELJ, lambda c: '%d-pop driver as_func=%s delj=on' % (len(c['shape']), c['as_func'])))
-    for tag, cases, coqfn, checkfn, tol, describe in groups:
-        if tag == 'kernel':
-            # two tolerance classes
-            for sub, sel, t in (('kernel', [c for c in cases if not c['delj']], TOL), ('kerneldelj', [c for c in cases if c['delj']], TOL_DELJ)):
-                results = run_group(ctx, sub, sel, coqfn, checkfn, t, ctx.pick(8, 12), describe)
-                account(ctx, sub, sel, results, describe)
-        else:
-            results = run_group(ctx, tag, cases, coqfn, checkfn, tol, ctx.pick(8, 12) if tag != 'tridiag' else 100, describe)
-            account(ctx, tag, cases, results, describe)
+def account(ctx, procs, results, max_reports=2):
+    nbad = {}
+    for pname, cs in procs:
+        for c in cs:
+            tag = tag_of(c)
+            d = len(c.get('shape', [0]))
+            if '_err' in c:
+                ctx.obligation('%s case %d runs: %s' % (tag, c['id'], describe(c)), False, 'correspondence', c['_err'])
+                hist, note = shorten_history(c, cs) if nbad.get('err', 0) < max_reports else ([strip(x) for x in cs[c.get('_pstart', 0):c['_pos']]], '')
+                nbad['err'] = nbad.get('err', 0) + 1
+                ctx.violation('%s: implementation failed or returned non-finite values: %s%s' % (describe(c), c['_err'], ('; ' + note) if note else ''),
+                              data={'process': pname, 'history': hist, 'case': strip(c), 'impl': c.get('_out'), 'error': c['_err']})
+                continue
+            ctx.count('%s d=%d' % (tag, d))
+            if c.get('hist'):
+                ctx.count('calls inside a designed call history' if c['hist'] != 'layouts' else 'memory-layout variants of driver calls')
+            triv = tag.startswith('kernel') and c['gamma'] == 0 and all(m == 0 for m in c['ms'])
+            ctx.case(signature=None if triv else (tag, json.dumps(strip(c), sort_keys=True)),
+                     sample={k: (v if not isinstance(v, list) or len(v) < 30 else v[:30]) for k, v in c.items() if not k.startswith('_') and k != 'pop'} if ctx.evaluations % 53 == 0 else None)
+            rr = results.get(c['id'])
+            ok = rr is not None and rr[0]
+            detail = ''
+            if c.get('_as_base'):
+                detail = 'result equals (1e-12) the result of the C-contiguous call %d, which is compared with the model' % c['layout_of']
+            ctx.obligation('%s case %d: %s' % (tag, c['id'], describe(c)), ok, 'correspondence', detail if ok else 'coq result %r' % (rr,))
+            if not ok:
+                nbad[tag] = nbad.get(tag, 0) + 1
+                if nbad[tag] <= max_reports:
+                    # the disagreeing case is a failing input: the real output does not solve the documented system; when the
+                    # disagreement depends on the calls made before it in the same process, those calls are part of the input
+                    hist, note = shorten_history(c, cs)
+                    ctx.violation('%s: output differs from the solution of the documented implicit system (model) beyond tolerance%s' % (describe(c), ('; ' + note) if note else ''),
+                                  data={'process': pname, 'history': hist, 'case': strip(c), 'impl': c['_out'], 'coq': rr, 'note': note})
+
+def const_vs_func(ctx, dc):
     # const vs function of time (property clause), directly on the implementation
     for c in dc:
-        if 'pair_of' in c and '_out' in c and '_out' in dc[c['pair_of']]:
+        if 'pair_of' in c and '_out' in c and '_out' in dc[c['pair_of']] and '_err' not in c and '_err' not in dc[c['pair_of']]:
             a, bb = c['_out'], dc[c['pair_of']]['_out']
             scale = max(1e-300, max(abs(x) for x in a))
             dev = max(abs(x - y) for x, y in zip(a, bb)) / scale
@@ -308,24 +838,140 @@ def run(ctx):
             ctx.obligation('const vs function-of-time drivers agree (%d pops)' % len(c['shape']), ok, 'predicate', 'rel dev %.3g' % dev)
             if not ok:
                 ctx.violation('a parameter passed as a constant and as a function returning that constant give different densities (%d populations, rel dev %.3g)' % (len(c['shape']), dev),
-                              data={'case': {k: v for k, v in c.items() if not k.startswith('_')}, 'const': bb, 'func': a})
+                              data={'process': c.get('_proc'), 'history': [], 'case': strip(c), 'pair': strip(dc[c['pair_of']]), 'const': bb, 'func': a})
 
-def account(ctx, tag, cases, results, describe):
-    nbad = 0
-    for c in cases:
-        if '_out' not in c:
+# ------------------------------------------------------------------------------------------------------------------
+# broken translator obligations -> thorough-size search on the functions they are about
+
+def broken_functions(ctx):
+    """functions named by the translator obligations that failed: (set of kernel names, set of driver dimensions);
+    an obligation that names nothing recognisable counts for everything"""
+    kern = set(); dims = set()
+    kof = lambda d: set('implicit_%dD%s' % (d, AX[k]) for k in range(d))
+    allk = set().union(*[kof(d) for d in range(1, 6)])
+    pre = set('implicit_precalc_%dD%s' % (d, AX[k]) for d, k in [(2, 0), (2, 1), (3, 0), (3, 1), (3, 2)])
+    for o in ctx.obligations:
+        if o['ok'] or o['kind'] != 'translator':
             continue
-        d = len(c.get('shape', [0]))
-        ctx.count('%s d=%d' % (tag, d))
-        triv = tag.startswith('kernel') and c['gamma'] == 0 and all(m == 0 for m in c['ms'])
-        ctx.case(signature=None if triv else (tag, json.dumps({k: v for k, v in c.items() if not k.startswith('_')}, sort_keys=True)),
-                 sample={k: (v if not isinstance(v, list) or len(v) < 30 else v[:30]) for k, v in c.items() if not k.startswith('_') and k != 'pop'} if ctx.evaluations % 37 == 0 else None)
-        rr = results.get(c['id'])
-        ok = rr is not None and rr[0]
-        ctx.obligation('%s case %d: %s' % (tag, c['id'], describe(c)), ok, 'correspondence', '' if ok else 'coq result %r' % (rr,))
-        if not ok:
-            nbad += 1
-            if nbad <= 2:
-                # the disagreeing case is a failing input: the real output does not solve the documented system
-                ctx.violation('%s: output differs from the solution of the documented implicit system (model) beyond tolerance' % describe(c),
-                              data={'case': {k: v for k, v in c.items() if not k.startswith('_')}, 'impl': c['_out'], 'coq': rr})
+        name = o['name']
+        txt = name + ' ' + str(o.get('detail', ''))
+        ks = set(m.group(0) for m in re.finditer(r'implicit_(?:precalc_)?\dD[xyzab]', txt))
+        ds = set()
+        for m in re.finditer(r'pyasm_(\d)D|py(\d)D[xyz]_|_inject_mutations_(\d)D|ob_inject_(\d)D|py_Mfunc(\d)D', txt):
+            ds.add(int(next(g for g in m.groups() if g)))
+        for nm, d in (('_one_pop', 1), ('_two_pops', 2), ('_three_pops', 3)):
+            if nm in txt:
+                ds.add(d)
+        if '_Mfunc1D-3D' in name:
+            ds.update((1, 2, 3))
+        for m in re.finditer(r'read integration(\d)D\.c|ob_Mfunc(\d)D', txt):
+            ks |= kof(int(next(g for g in m.groups() if g)))
+        if ks or ds:
+            kern |= ks; dims |= ds
+        elif 'Integration.py' in txt or 'ob_python' in name or '_compute_dt' in txt:
+            dims.update(range(1, 6))
+        elif 'integration_shared.c' in txt or 'ob_shared' in name or 'ob_kernels' in name:
+            kern |= allk
+        else:
+            kern |= allk | pre | {'tridiag'}; dims.update(range(1, 6))
+    return kern, dims
+
+def run(ctx):
+    ctx.rule = ('kernel cases = (dimension d, swept axis k, unequal shape, per-axis random/uniform/exponential/quadratic dyadic grids with '
+                'and without exact 0/1 end points, nu, per-pair migration rates, gamma, h, beta(1-D), dt, delj switch, random non-negative density); '
+                'precalc cases = random diagonally dominant coefficient arrays; driver cases = one_pop..five_pops for 1-3 steps with constants, '
+                'constant functions and linear-in-time functions; call histories = per kernel (15 on-the-fly, 5 precalc, tridiag; ctypes and Cython wrapper) and per driver '
+                '(constants / functions, delj off / on) a fixed sequence of calls in one process that changes one group of arguments at a time at constant array sizes '
+                '(grids of the same size replaced in the same buffers, parameters, dt, phi, delj, shape, the base call again); memory-layout variants of driver calls '
+                '(Fortran order, transposed view, negative strides, every-other-element views of phi and of the grid); '
+                'distinct = distinct parameter tuples; non-trivial = not (gamma = 0 and all m = 0)')
+    ctx.assumptions += ['float64 kernels are compared with exact rational evaluation at 1e-9 (1e-7 with the delj trick) relative to max|phi|',
+                        'delj cases keep |w/V| in {0} u [1e-2, 500] on every interval (the float formula is ill-conditioned below, overflows above)',
+                        'Qexp is a rational approximation with relative error < 2^-100',
+                        'the model is a pure function of the arguments of one call: every case is executed at a recorded position of a recorded call sequence in one process and compared with the model of that call alone']
+    ctx.trusted += ['C semantics of the kernels are not formalised: tie = coefficient-formula translation (ring/field obligations) + kernel descriptors + execution against the model']
+    if ctx.replay and replay(ctx):
+        return
+    from harness.props import c02_translate
+    c02_translate.obligations(ctx)
+    kc = gen_kernel_cases(ctx)
+    pc = gen_precalc_cases(ctx)
+    tc = gen_tridiag_cases(ctx)
+    dc = gen_driver_cases(ctx)
+    # the designed call histories draw from their own generator: the streams above stay what they were
+    import random
+    hrng = random.Random('%s-%d-histories' % (ctx.prop, ctx.seed))
+    hk = gen_history_cases(ctx, hrng)
+    hd = gen_driver_histories(ctx, hrng)
+    procs = [('kernel', [c for c in kc if not c['delj']]), ('kerneldelj', [c for c in kc if c['delj']]), ('precalc', pc), ('tridiag', tc),
+             ('driver', [c for c in dc if not c['delj']]), ('driverdelj', [c for c in dc if c['delj']]),
+             ('kernel-histories', hk), ('driver-histories', hd)]
+    # memory layouts: variants of calls 0 and 2 (grid A / setting 1, grid B / setting 2) of every delj-off driver history, executed after
+    # the histories in a process of their own; ids are assigned in evaluate(), so the variants are generated from
+    # provisional ids here
+    for i, c in enumerate([c for _, cs in procs for c in cs]):
+        c['id'] = i
+    lay = gen_layout_cases(ctx, [c for c in hd if not c['delj'] and c['hstep'] in ((0, 2) if ctx.quick else (0, 1, 2, 3)) and c['hist'].endswith('#0')])
+    procs.append(('driver-layouts', lay))
+    # broken translator obligations: thorough-size sequences for the functions they are about, before anything is concluded
+    kern, dims = broken_functions(ctx)
+    if kern or dims:
+        trng = random.Random('%s-%d-targeted' % (ctx.prop, ctx.seed))
+        tk = gen_history_cases(ctx, trng, only=kern, fine=True, big_from=0, reps=3 if len(kern) <= 5 else 1) if kern else []
+        td = gen_driver_histories(ctx, trng, dims=sorted(dims), big_from=0, reps=3 if len(dims) <= 2 else 1) if dims else []
+        for c in tk + td:
+            c['hist'] = 'targeted:' + c['hist']
+        procs.append(('targeted-search', tk + td))
+        ctx.notes.append('translator obligations about %s failed: thorough-size call sequences (one argument changed at a time, same sizes) of these functions were added (%d calls)' % (
+            ', '.join(sorted(kern) + ['%d-population driver' % d for d in sorted(dims)]), len(tk + td)))
+    results, res = evaluate(ctx, procs)
+    allc = [c for _, cs in procs for c in cs]
+    pivot_accounting(ctx, allc, res)
+    account(ctx, procs, results)
+    const_vs_func(ctx, dc)
+    # evidence: which histories were exercised
+    hists = {}
+    for c in allc:
+        if c.get('hist'):
+            hists.setdefault(c['hist'], []).append(c['step'] if c['hist'] != 'layouts' else 'phi=%s grid=%s (%d-D)' % (c['layout']['phi'], c['layout']['grid'], len(c['shape'])))
+    ctx.stats['call_histories_exercised'] = {h: ' -> '.join(v) if h != 'layouts' else sorted(set(v)) for h, v in hists.items()}
+    ctx.stats['processes'] = {name: '%d calls in this order in one interpreter' % len(cs) for name, cs in procs}
+    # fail closed: every kernel (both ways of calling it) and every driver (constants / functions, delj off / on) went through
+    # a same-size / different-grid sequence of at least three evaluated calls, and every dimension through the layout variants
+    want = ['implicit_%dD%s/%s#0' % (d, AX[k], v) for d in range(1, 6) for k in range(d) for v in ('ctypes', 'wrap')]
+    want += ['implicit_precalc_%dD%s/%s#0' % (d, AX[k], v) for d, k in [(2, 0), (2, 1), (3, 0), (3, 1), (3, 2)] for v in ('ctypes', 'wrap')]
+    want += ['tridiag/ctypes#0', 'tridiag/wrap#0']
+    want += ['%s/%s%s#0' % (n, pth, dj) for n in DRIVER_NAMES for pth in ('constants', 'functions') for dj in ('', '/delj')]
+    done = {}
+    for c in allc:
+        if c.get('hist') and '_out' in c and '_err' not in c:
+            done[c['hist']] = done.get(c['hist'], 0) + 1
+    missing = [h for h in want if done.get(h, 0) < 3]
+    laydims = set(len(c['shape']) for c in allc if c.get('hist') == 'layouts' and '_out' in c)
+    if laydims != {1, 2, 3, 4, 5}:
+        missing.append('layout variants for dimensions %s' % sorted({1, 2, 3, 4, 5} - laydims))
+    ctx.obligation('call histories exercised for all 15 + 5 kernels and tridiag (ctypes and Cython wrapper) and for one_pop..five_pops (constants / functions, delj off / on); layout variants in 1-5 dimensions',
+                   not missing, 'harness', 'missing: ' + ', '.join(missing[:10]) if missing else '%d histories' % len(done))
+
+def replay(ctx):
+    """re-run the recorded sequence (history, then the case) in one fresh interpreter and compare every call with the model"""
+    rp = json.load(open(ctx.replay))
+    inp = rp.get('input') or {}
+    if 'case' not in inp:
+        # a replay that names a broken obligation and carries no input: the whole check (obligations, targeted search) is repeated
+        ctx.notes.append('replay file carries no case (broken: %s): the full check is repeated' % rp.get('broken'))
+        return False
+    seq = [dict(x) for x in (inp.get('history') or [])] + [dict(inp['case'])]
+    for c in seq:
+        c.pop('id', None); c.pop('layout_of', None); c.pop('pair_of', None)
+    procs = [('replay', seq)]
+    if inp.get('pair'):
+        procs.append(('replay-pair', [dict(inp['pair'])]))
+        procs[1][1][0].pop('pair_of', None)
+    results, res = evaluate(ctx, procs, pivots=False)
+    account(ctx, procs, results, max_reports=len(seq) + 1)
+    if inp.get('pair'):
+        other = procs[1][1][0]; main = seq[-1]
+        main['pair_of'] = 0
+        const_vs_func(ctx, [other, main])
+    return True
